@@ -13,6 +13,22 @@
 //#include <type_traits>
 #include "mpi_dispatcher.hpp"
 
+#ifdef POMEROL_VERIF
+#include <cstdlib>
+#include <unistd.h>
+namespace pMPI {
+// Verification hook: pseudo-random delay before a job (seeded through the environment variable
+// POMEROL_VERIF_DELAY_SEED) so that the job-to-rank assignment differs between otherwise identical runs.
+inline void verif_delay(int rank, int job) {
+    const char* e = std::getenv("POMEROL_VERIF_DELAY_SEED");
+    if (!e) return;
+    unsigned long long z = std::strtoull(e, 0, 10) + 0x9E3779B97F4A7C15ULL * (unsigned long long)(rank * 7919 + job + 1);
+    z = (z ^ (z >> 30)) * 0xBF58476D1CE4E5B9ULL; z = (z ^ (z >> 27)) * 0x94D049BB133111EBULL; z ^= z >> 31;
+    usleep((unsigned)(z % 3000));
+}
+}
+#endif
+
 namespace pMPI {
 
 template <typename PartType>
@@ -72,6 +88,9 @@ std::map<pMPI::JobId, pMPI::WorkerId> mpi_skel<WrapType>::run(const boost::mpi::
             JobId p = worker.current_job();
             if (VerboseOutput) std::cout << "["<<p+1<<"/"<<parts.size()<< "] P" << comm.rank() 
                                          << " : part " << p << " [" << parts[p].complexity << "] run;" << std::endl;
+#ifdef POMEROL_VERIF
+            verif_delay(rank, p);
+#endif
             parts[p].run(); 
             worker.report_job_done(); 
         };
